@@ -768,7 +768,15 @@ def classify(diag, linemap):
         ob['id'] = '%s#%s@%s' % (r.get('fn'), kind, ob['text'][:60])
     else:
         g = pick(porgs, ('ghost', 'tmpl', 'header', 'ghost-inline'))
+        if '/*OB*/' in ob['text']:
+            # an obligation that can only be written as an assertion at an anchor (state behind a lock guard, not nameable in `ensures`)
+            ob.update(kind='assert-obligation', fn=fn or (g or {}).get('fn'), id='%s#obligation@%s' % (fn or (g or {}).get('fn'), ob['text'].replace('/*OB*/', '').strip()[:60]))
+            return 'verification', ob
+        # a step of the committed proof script (hint assertion, lemma precondition): its failure says that the script no longer fits the
+        # current text, not that a contract clause is violated - undecided, never an alarm (a real violation also fails a clause)
         ob.update(kind='proof-step', fn=fn or (g or {}).get('fn'), id='%s#proof-step@%s' % (fn or (g or {}).get('fn'), ob['text'][:60]))
+        ob['message'] = 'a step of the proof script failed (%s): %s' % (msg, ob['text'][:120])
+        return 'undecided', ob
     return 'verification', ob
 
 
